@@ -267,7 +267,7 @@ func TestC02(t *testing.T) {
 		Gen:         gen,
 		Oracle:      oracle,
 		Quick:       250,
-		Thorough:    6000,
+		Thorough:    800,
 		MaxRounds:   6,
 	})
 }
